@@ -329,7 +329,10 @@ static void gen_case(Out& out, Rng& g) {
     // the miter limit makes the result jump when a corner angle crosses it, and re-splitting moves
     // vertices by the rounding of the cut points: for miter joins the union-independence cases use
     // axis-parallel polygons, whose pieces are exact
-    g_rectilinear = uni && join == 0;
+    // (the same holds for the bevel = Clipper "square" join: a cut that lands a few units from a vertex of an oblique edge leaves, after
+    // rounding to the grid, a short edge whose direction is off by degrees, and the square cap at distance d follows that direction - at
+    // d = 2000 the two results differed by 13 units although the regions agree to the grid.  Only the round join is continuous in the region.)
+    g_rectilinear = uni && join != 2;
     DGroup G = gen_group(g, S, span, scen);
     g_rectilinear = false;
     double tol;
